@@ -114,6 +114,58 @@ Section Spec.
                                         end)) (g_edges gt).
 End Spec.
 
+(* ---- call trees: a node is a path from the root (non-empty prefix of a sample's entries) ---- *)
+Section TreeSpec.
+  Variable K : Type.
+  Variable keqb : K -> K -> bool.
+
+  (* q is a non-empty prefix of l *)
+  Fixpoint prefixb (q l : list K) : bool :=
+    match q, l with
+    | [], _ => false
+    | [x], y :: _ => keqb x y
+    | x :: q', y :: l' => keqb x y && prefixb q' l'
+    | _ :: _, [] => false
+    end.
+
+  (* cum of a path: the samples whose stack starts with it; flat: those whose stack IS it *)
+  Definition tree_cum_spec (div : bool) (ss : list (gsample K)) (path : list K) : Z :=
+    sumf K (fun s => if prefixb path (keys K s) then pick K div s else 0) ss.
+  Definition tree_flat_spec (div : bool) (ss : list (gsample K)) (path : list K) : Z :=
+    sumf K (fun s => if list_eqb K keqb (keys K s) path then pick K div s else 0) ss.
+
+  (* the edge p -> q of a sample with entries l: both are paths of l and q is one frame longer *)
+  Definition econd (p q l : list K) : bool :=
+    (prefixb p l && prefixb q l && Nat.eqb (List.length q) (S (List.length p)))%bool.
+  Definition tree_edge_spec (div : bool) (ss : list (gsample K)) (p q : list K) : Z :=
+    sumf K (fun s => if econd p q (keys K s) then pick K div s else 0) ss.
+
+  Definition tree_spec_nval (ss : list (gsample K)) (path : list K) : nval :=
+    mk_nval (wrap_i64 (tree_flat_spec false ss path)) (wrap_i64 (tree_flat_spec true ss path))
+            (wrap_i64 (tree_cum_spec false ss path)) (wrap_i64 (tree_cum_spec true ss path)).
+
+  (* every path that occurs, once *)
+  Definition prefixes (l : list K) : list (list K) := map (fun n => firstn n l) (seq 1 (List.length l)).
+  Definition tree_paths (ss : list (gsample K)) : list (list K) :=
+    fold_right (fun p acc => if existsb (list_eqb K keqb p) acc then acc else p :: acc) []
+               (flat_map (fun s => prefixes (keys K s)) ss).
+
+  (* what a call-tree report must show: the paths whose numbers are not both zero (nor negative
+     under drop_negative), and the edge into each shown path from its shown parent *)
+  Definition tree_expected_nodes (drop_negative : bool) (ss : list (gsample K)) : list (list K * nval) :=
+    filter (fun e => negb (node_dropped drop_negative (snd e)))
+           (map (fun p => (p, tree_spec_nval ss p)) (tree_paths ss)).
+  Definition tree_expected_edges (drop_negative : bool) (ss : list (gsample K)) : list (list K * list K * Z * Z) :=
+    flat_map (fun e => let q := fst e in
+                       let p := removelast q in
+                       match p with
+                       | [] => []
+                       | _ => if node_dropped drop_negative (tree_spec_nval ss p) then []
+                              else [(p, q, wrap_i64 (tree_edge_spec false ss p q), wrap_i64 (tree_edge_spec true ss p q))]
+                       end)
+             (tree_expected_nodes drop_negative ss).
+End TreeSpec.
+
 (* total of a report (C04): sum of absolute values, base-only when diffing, mean = quotient *)
 Section Total.
   Definition zabs_wrap (v : Z) : Z := if v <? 0 then wrap_i64 (- v) else v.
